@@ -157,9 +157,8 @@ func (w *world) tick(d int) {
 }
 
 func (w *world) setMtime(i, sec int) {
-	if err := os.Chtimes(w.path(w.names[i]), at(sec), at(sec)); err != nil {
-		panic(err)
-	}
+	// a failure (file already gone again) is not the driver's business: the observation after the call shows it
+	_ = os.Chtimes(w.path(w.names[i]), at(sec), at(sec))
 }
 
 func (w *world) stat(i int) {
